@@ -39,8 +39,23 @@ SPEC = {
              "1.2-2.2 x timeout after auth or after a call listed twice; no sleep at all and 4-6 calls that the server answers after "
              "0.3-0.4 x timeout each; a mix of all of these. 1-2 invocations by 1-2 instances, one invocation is planned to take at most "
              "3.5 s; cases of a process run concurrently, each against a recording server of its own. Non-trivial = some call starts "
-             "after more than `timeout` has (nominally) passed since the start of its invocation."),
-    "floors": {"TestGRPCJSON/several_passes": 0.12, "TestGRPCJSON/several_passes_beyond_the_provider_queue": 0.025, "TestGRPCScenarioPaced/call_starts_after_timeout_has_passed_since_scenario_start": 0.44,
+             "after more than `timeout` has (nominally) passed since the start of its invocation. "
+             "Added after seeded defect C20/m16: the call name of an unknown-method entry (grpc/json) has one of many shapes - a misspelt method of the service, an unknown "
+             "service, the bare method or service name without any dot, slash forms (target/TargetService/Hello, the gRPC path form /target.TargetService/Hello), a leading "
+             "or trailing dot, dots only, the empty string, no \"call\" key at all, unicode names, names of 300-4000 characters, random names with and without a dot; "
+             "and one grpc/scenario description in three has a scenario that ends - after auth, its marker call and 0..n of its calls - with a call \"bad\" whose call "
+             "name is of the same shapes (key left out included): the call must leave one failed sample per invocation of that scenario and never reach the server, every "
+             "invocation of every scenario must still be made in full (as many Auth calls as invocations, every listed call the listed number of times) and the run must not fail."),
+    "floors": {"TestGRPCJSON/unknown_call_name": 0.2, "TestGRPCJSON/unknown_call_name_without_dot": 0.16,
+               "TestGRPCJSON/unknown_call_name_without_dot_among_valid_entries": 0.14,
+               "TestGRPCJSON/unknown_call_empty": 0.02, "TestGRPCJSON/unknown_call_missing_key": 0.015,
+               "TestGRPCJSON/unknown_call_bare_method": 0.03, "TestGRPCJSON/unknown_call_slashes_only": 0.04,
+               "TestGRPCScenario/unknown_call_shot": 0.14, "TestGRPCScenario/unknown_call_name_without_dot_shot": 0.08,
+               "TestGRPCScenario/unknown_call_among_good_scenarios": 0.08,
+               "TestGRPCScenario/unknown_call_name_without_dot_among_good_scenarios": 0.05,
+               "TestGRPCScenario/unknown_call_shot_ge_2_times": 0.09, "TestGRPCScenario/unknown_call_after_good_calls": 0.08,
+               "TestGRPCScenario/unknown_call_empty": 0.008, "TestGRPCScenario/unknown_call_missing_key": 0.008,
+               "TestGRPCJSON/several_passes": 0.12, "TestGRPCJSON/several_passes_beyond_the_provider_queue": 0.025, "TestGRPCScenarioPaced/call_starts_after_timeout_has_passed_since_scenario_start": 0.44,
                "TestGRPCScenarioPaced/beyond_timeout_by_sleep_steps": 0.2, "TestGRPCScenarioPaced/beyond_timeout_by_per_call_sleep": 0.08,
                "TestGRPCScenarioPaced/beyond_timeout_by_slow_answers_only": 1, "TestGRPCScenarioPaced/call_starts_late_within_timeout": 0.19,
                "TestGRPCJSON/reflect_port": 0.27, "TestGRPCJSON/reflect_port_client_per_instance": 0.12,
@@ -65,7 +80,7 @@ SPEC = {
         "text": ("Per valid entry the recording server must have received exactly one call of the named method whose message is "
                  "proto.Equal to protojson.Unmarshal(payload) into the generated type, with every metadata pair, carrying a deadline "
                  "<= the configured timeout; a stalled handler ends as a 504 sample by the timeout; invalid entries reach the server "
-                 "never, yield one non-200 sample and do not disturb the others. With reflect_port set the reflection-only listener must have served a "
+                 "never, yield one non-200 sample and do not disturb the others (whatever the shape of an unknown call name: with or without a dot, slash forms, empty, key left out, unicode, very long); a scenario call with such a name leaves one non-200 sample per invocation, never reaches the server, and every invocation of every scenario is still made in full by a run that ends without error. With reflect_port set the reflection-only listener must have served a "
                  "reflection stream and must have received no other call (every call goes to the target port, whichever shared client or instance sends it). Scenario calls: every call of every "
                  "invocation reaches the server with the method, the payload (token and user id captured from this invocation's Auth "
                  "response, source values) and every metadata pair rendered for THIS invocation (reference rendering from what the "
